@@ -33,7 +33,7 @@ def alphabet(E):
     return [E, E + 1, M // 2, M - E - 1, M - E]
 
 
-STEPS = {1: [10, 18, 20], 2: [10, 18, 19], 6: [4, 10, 11]}
+STEPS = {1: [0, 10, 18, 20], 2: [10, 18, 19], 6: [4, 10, 11]}      # 0: phase_step exactly 0.0 (every non-zero change is a wrap)
 
 
 def _call(fn, *a, **k):
@@ -61,7 +61,7 @@ def gen_records(args):
         n = len(p)
         ph = val[p]
         for S in STEPS[E]:
-            stepf = (S + 0.5) * U
+            stepf = (S + 0.5) * U if S > 0 else 0.0
             base = {'p': p, 'step': S, 'edge': E}
             for good in (0, 1):
                 out, err = _vec(_call(gcv, ph, return_good=bool(good), phase_step=stepf, phase_edge=edge))
@@ -82,6 +82,12 @@ def gen_records(args):
                 o = _call(gcv, ph[:, None], return_good=True, phase_step=stepf, phase_edge=edge)
                 out, err = _vec(o)
                 recs.append(dict(base, kind='cv', good=1, hasmask=0, mask=[], out=out, layout='column'))
+                # a wrap-free (constant) column BEFORE and AFTER the series: columns are independent of each other
+                three = np.c_[np.full(n, val[M // 2]), ph, np.full(n, val[E])]
+                o = _call(gcv, three, return_good=False, phase_step=stepf, phase_edge=edge)
+                for col, pp in ((0, [M // 2] * n), (1, p), (2, [E] * n)):
+                    out, err = _vec(o, col)
+                    recs.append({'kind': 'cv', 'p': pp, 'step': S, 'edge': E, 'good': 0, 'hasmask': 0, 'mask': [], 'out': out, 'layout': 'three-column'})
             # masks
             if n <= masks_upto:
                 mlist = itertools.product((0, 1), repeat=n)
